@@ -28,6 +28,22 @@ CLAIMS = {
         "Lean 4 proof (purity by construction) + differential histories against the pure model", "§7 C20"),
 }
 
+CLAIMS["C15"] = (
+    "Totality: the model pipeline is a total Lean function whose every expect()/unwrap()/panic! site is an explicit outcome; theorems "
+    "(Props/C15) show which outcomes are reachable. The deciding tie for the implementation is K1 with an implementation-side oracle on "
+    "every generated/mutated/malformed input: no panic other than the four whitelisted configuration rejections, every structurally "
+    "invalid input of the property's list rejected, every accepted output accepted by syn::parse2::<Expr>, and outcome class + tokens "
+    "equal to the model's.",
+    NOTE_COMMON + "'Valid Rust' is checked by syn's expression grammar, not rustc's; inputs whose member-access operand is not a member "
+    "access, whose custom_joiner tokens do not form a call, or whose let name is a keyword (syn accepts `let mut let`) are outside the quantifier.",
+    "Lean 4 model with explicit failure sites + K1 differential with implementation-side totality oracle", "§7 C15")
+CLAIMS["C05"] = (
+    "Refinement proof (Lean 4): the semantics of the generated code equals the reference step loop for every program, depth profile and "
+    "user world; the property is a corollary on the reference loop (first failing step, lowest-numbered failing branch, value unchanged). "
+    "Tie: K1 (generator tokens) + K2 (real try macros compiled and run on every failure placement over small profiles and on random "
+    "programs, compared with the reference semantics and with the semantics of the model's generated code).",
+    NOTE_COMMON + "Async try variants: result set over completion orders is covered by K2 only until the async model lands.",
+    "Lean 4 refinement proof + K2 compiled-execution differential", "§7 C05")
 PLANNED = {}
 
 
